@@ -499,6 +499,29 @@ func runC19(r *Rng, tier string, n int) {
 		}
 		Emit("pairraw", []string{Hs(a), Hs(b)}, c19PairRaw(a, b))
 	}
+	// (5b) Fqdn / CanonicalName on octet strings: every octet value, raw, inside a label, alone among ASCII and
+	// next to other high octets: nothing changes but the appended root and A-Z -> a-z, octet by octet
+	for b := 0; b < 256; b++ {
+		if b == '.' || b == '\\' {
+			continue
+		}
+		for _, tmpl := range []string{"A%sb.Example", "A%sb.Example.", "%s", "WWW.%sx.Example", "\xc3\x89%s.Q.", "%s%s%s.Z"} {
+			in := strings.ReplaceAll(tmpl, "%s", string([]byte{byte(b)}))
+			want := string(lowerASCII([]byte(in)))
+			wantF := in
+			if !strings.HasSuffix(in, ".") {
+				want += "."
+				wantF += "."
+			}
+			c19checked++
+			if got := dns.CanonicalName(in); got != want {
+				Viol("C19/CanonicalName/octets", "CanonicalName changes more than ASCII letter case and the final dot: got "+Hs(got)+" want "+Hs(want), map[string]string{"name_hex": Hs(in)})
+			}
+			if got := dns.Fqdn(in); got != wantF {
+				Viol("C19/Fqdn/octets", "Fqdn changes more than the final dot: got "+Hs(got)+" want "+Hs(wantF), map[string]string{"name_hex": Hs(in)})
+			}
+		}
+	}
 	// (7) IsFqdn is about octets: a multi-octet UTF-8 character, an invalid UTF-8 octet or an ASCII
 	// letter before k backslashes and the final dot: fully qualified exactly when k is even
 	for _, pre := range []string{"", "a", "\xc3\xa9", "\xff", "\xe6\x97\xa5", "\xf0\x9f\x98\x80", "x.\xc3\xa9", "\\\xc3\xa9"} {
